@@ -293,23 +293,61 @@ theorem argsPart_ok {t : TailSpec} {k : Nat} {w : List WVal} {a : WVal} (h : arg
   · exact checkArgs_ok h
   · cases h; cases t.variant <;> rfl
 
+theorem encGet_inv {d : Dict} {key : Str} {valid : WVal → Bool} {v : WVal} (h : encGet d key valid = .ok v) :
+    v.isNull = true ∨ valid v = true := by
+  simp only [encGet] at h
+  split at h
+  · simp [fail] at h
+  · rename_i hc
+    simp only [Except.ok.injEq] at h
+    subst h
+    cases hn : ((Dict.get? d key).getD .null).isNull <;> cases hv : valid ((Dict.get? d key).getD .null) <;> simp_all
+
+theorem payloadMode_bytes {k : Nat} {w : List WVal} (h : payloadMode k w = true) :
+    (w.getD (k + 1) .null).isBytes = true := by
+  unfold payloadMode at h
+  simp only [Bool.and_eq_true] at h
+  have h2 := h.2
+  generalize w.getD (k + 1) .null = x at h2 ⊢
+  cases x <;> first | rfl | (simp at h2)
+
+/-- what a successful tail parse says about the six tail attributes: everything the constructor asserts about them
+(payload is bytes, the `enc_*` values are valid, `enc_key`/`enc_serializer` only together with `enc_algo`) -/
 theorem parseTail_ok {O : Oracles} {t : TailSpec} {k : Nat} {d : Dict} {w : List WVal} {tm : Msg}
     (h : parseTail O t k d w = .ok tm) :
     ∃ a kw p ea ek es, tm = [(cs!"args", a), (cs!"kwargs", kw), (cs!"payload", p),
         (cs!"enc_algo", ea), (cs!"enc_key", ek), (cs!"enc_serializer", es)] ∧
       argsShape t.variant a = true ∧
-      (p.isNull = true ∨ (a = .null ∧ kw = .null)) := by
+      (p.isNull = true ∨ (a = .null ∧ kw = .null)) ∧
+      (p.isNull = true ∨ p.isBytes = true) ∧
+      (ea.isNull = true ∨ validEncAlgo O ea = true) ∧
+      (ek.isNull = true ∨ ek.isStr = true) ∧
+      (es.isNull = true ∨ validEncSer O es = true) ∧
+      ((ea.isNull = true ∧ ek.isNull = true ∧ es.isNull = true) ∨ (p.isNull = false ∧ ea.isNull = false)) := by
   unfold parseTail at h
   split at h
-  · obtain ⟨ea, _, h⟩ := bind_eq_ok h
-    obtain ⟨ek, _, h⟩ := bind_eq_ok h
-    obtain ⟨es, _, h⟩ := bind_eq_ok h
+  · rename_i hmode
+    obtain ⟨ea, hea, h⟩ := bind_eq_ok h
+    obtain ⟨ek, hek, h⟩ := bind_eq_ok h
+    obtain ⟨es, hes, h⟩ := bind_eq_ok h
+    obtain ⟨u, hg, h⟩ := bind_eq_ok h
     simp only [pure, Except.pure, Except.ok.injEq] at h
-    exact ⟨.null, .null, _, ea, ek, es, h.symm, by cases t.variant <;> rfl, Or.inr ⟨rfl, rfl⟩⟩
+    have hb := payloadMode_bytes hmode
+    have hpn : (w.getD (k + 1) .null).isNull = false := by
+      generalize w.getD (k + 1) .null = x at hb ⊢
+      cases x <;> first | rfl | (simp [WVal.isBytes] at hb)
+    refine ⟨.null, .null, _, ea, ek, es, h.symm, by cases t.variant <;> rfl, Or.inr ⟨rfl, rfl⟩, Or.inr hb,
+      encGet_inv hea, encGet_inv hek, encGet_inv hes, ?_⟩
+    unfold encTripleGate at hg
+    split at hg
+    · simp [fail] at hg
+    · rename_i hc
+      cases h1 : ea.isNull <;> cases h2 : ek.isNull <;> cases h3 : es.isNull <;> simp_all
   · obtain ⟨a, ha, h⟩ := bind_eq_ok h
     obtain ⟨kw, _, h⟩ := bind_eq_ok h
     simp only [pure, Except.pure, Except.ok.injEq] at h
-    exact ⟨a, kw, .null, .null, .null, .null, h.symm, argsPart_ok ha, Or.inl rfl⟩
+    exact ⟨a, kw, .null, .null, .null, .null, h.symm, argsPart_ok ha, Or.inl rfl, Or.inl rfl, Or.inl rfl, Or.inl rfl,
+      Or.inl rfl, Or.inl ⟨rfl, rfl, rfl⟩⟩
 
 theorem ctorOpts_inv {cls : ErrClass} {m : Msg} : ∀ ss : List OptStep, ctorOpts cls m ss = .ok () → ∀ s ∈ ss, s.cty.ok (m.get s.field) = true := by
   intro ss
@@ -339,22 +377,31 @@ theorem ctorCross_inv {cls : ErrClass} {O : Oracles} {m : Msg} : ∀ cs : List C
       · exact ih h q hq
     · simp [fail] at h
 
-/-- the constructor assertions that every class with an args/kwargs/payload tail carries -/
-def Schema.wfCross (σ : Schema) : Bool :=
-  σ.tail.isNone ||
-  (σ.cross.any (fun c => match c with | .payloadBytes => true | _ => false) &&
-   σ.cross.any (fun c => match c with | .encTypes => true | _ => false) &&
-   σ.cross.any (fun c => match c with | .encTriple => true | _ => false))
-
-theorem cross_mem {σ : Schema} (h : σ.wfCross = true) (ht : σ.tail.isSome = true) :
-    Cross.payloadBytes ∈ σ.cross ∧ Cross.encTypes ∈ σ.cross ∧ Cross.encTriple ∈ σ.cross := by
-  simp only [Schema.wfCross, Bool.or_eq_true, Bool.and_eq_true, List.any_eq_true] at h
-  rcases h with h | ⟨⟨⟨a, ha, ha'⟩, ⟨b, hb, hb'⟩⟩, ⟨c, hc, hc'⟩⟩
-  · cases hh : σ.tail <;> simp_all
-  · refine ⟨?_, ?_, ?_⟩
-    · cases a <;> simp_all
-    · cases b <;> simp_all
-    · cases c <;> simp_all
+/-- names and results of the typed entries, for every option type (`roles` included) -/
+theorem parseOpts_mem {O : Oracles} {d : Dict} :
+    ∀ (ss : List OptStep) (om : Msg), parseOpts O d ss = .ok om →
+      om.map (·.1) = ss.map (·.field) ∧ ∀ s ∈ ss, ∃ v, (s.field, v) ∈ om ∧ s.parse O d = .ok v := by
+  intro ss
+  induction ss with
+  | nil =>
+    intro om h
+    simp only [parseOpts, pure, Except.pure] at h
+    cases h
+    exact ⟨rfl, by intro s hs; cases hs⟩
+  | cons s t ih =>
+    intro om h
+    simp only [parseOpts] at h
+    obtain ⟨v, hv, h⟩ := bind_eq_ok h
+    obtain ⟨rest, hrest, h⟩ := bind_eq_ok h
+    simp only [pure, Except.pure, Except.ok.injEq] at h
+    subst h
+    obtain ⟨ihn, ihl⟩ := ih rest hrest
+    refine ⟨by simp [ihn], ?_⟩
+    intro q hq
+    rcases List.mem_cons.mp hq with rfl | hq
+    · exact ⟨v, List.mem_cons_self, hv⟩
+    · obtain ⟨x, hx, hp⟩ := ihl q hq
+      exact ⟨x, List.mem_cons_of_mem _ hx, hp⟩
 
 theorem length_tail_of_lengths {σ : Schema} {w : List WVal} (hwf : σ.wf = true)
     (hl : σ.lengths.contains w.length = true) :
@@ -400,17 +447,29 @@ theorem parsePos_full {σ : Schema} {O : Oracles} {w : List WVal} {pm : Msg} (hw
         subst hp
         simp [PosStep.field?] at hf
 
-/-- **strictness**: a message accepted by `parse` satisfies `Schema.strict` -/
-theorem parse_strict_core (σ : Schema) (O : Oracles) (w : List WVal) (m : Msg)
-    (hwf : σ.wf = true) (hnr : σ.noRoles = true) (hwc : σ.wfCross = true)
-    (h : σ.parse O w = .ok m) : σ.strict O m = true := by
-  unfold Schema.parse at h
-  obtain ⟨m', hps, h⟩ := bind_eq_ok h
-  obtain ⟨u, hcs, h⟩ := bind_eq_ok h
-  simp only [pure, Except.pure, Except.ok.injEq] at h
-  subst h
-  -- parse stage
-  unfold Schema.parseStage at hps
+/-- what the tail of a successfully parsed message looks like (in terms of the message's attributes) -/
+def TailInv (O : Oracles) (t : TailSpec) (m : Msg) : Prop :=
+  argsShape t.variant (m.get cs!"args") = true ∧
+  ((m.get cs!"payload").isNull = true ∨ (m.get cs!"args" = .null ∧ m.get cs!"kwargs" = .null)) ∧
+  ((m.get cs!"payload").isNull = true ∨ (m.get cs!"payload").isBytes = true) ∧
+  ((m.get cs!"enc_algo").isNull = true ∨ validEncAlgo O (m.get cs!"enc_algo") = true) ∧
+  ((m.get cs!"enc_key").isNull = true ∨ (m.get cs!"enc_key").isStr = true) ∧
+  ((m.get cs!"enc_serializer").isNull = true ∨ validEncSer O (m.get cs!"enc_serializer") = true) ∧
+  (((m.get cs!"enc_algo").isNull = true ∧ (m.get cs!"enc_key").isNull = true ∧ (m.get cs!"enc_serializer").isNull = true) ∨
+   ((m.get cs!"payload").isNull = false ∧ (m.get cs!"enc_algo").isNull = false))
+
+/-- what the field-by-field part of `parse` establishes about the attributes of the message it returns — for every
+class, HELLO and WELCOME included -/
+structure FieldsInv (σ : Schema) (O : Oracles) (w : List WVal) (m : Msg) : Prop where
+  names : m.map (·.1) = σ.fieldNames
+  pos : ∀ p ∈ σ.pos, ∀ f, p.field? = some f → p.local O w (m.get f)
+  opts : ∀ s ∈ σ.opts, s.parse O (σ.optsOf w) = .ok (m.get s.field)
+  tail : ∀ t, σ.tail = some t → TailInv O t m
+  custom : σ.custom = true → m.get cs!"custom" = .dict ((σ.optsOf w).filter (fun kv => O.customAttr kv.1))
+
+theorem parseFields_inv {σ : Schema} {O : Oracles} {w : List WVal} {m' : Msg} (hwf : σ.wf = true)
+    (hps : σ.parseFields O w = .ok m') : FieldsInv σ O w m' := by
+  unfold Schema.parseFields at hps
   split at hps
   · simp [fail] at hps
   rename_i hlen
@@ -421,31 +480,30 @@ theorem parse_strict_core (σ : Schema) (O : Oracles) (w : List WVal) (m : Msg)
   obtain ⟨om, hom, hps⟩ := bind_eq_ok hps
   simp only [pure, Except.pure, Except.ok.injEq] at hps
   obtain ⟨hpn, hpl⟩ := parsePos_full hwf hl hpm
-  have hws : ∀ s ∈ σ.opts, OptStep.wf s = true ∧ s.ty.isRoles = false := by
-    intro s hs
-    refine ⟨(wf_parts hwf).2.2.2.2.2.2.2 s hs, ?_⟩
-    simp only [Schema.noRoles, List.all_eq_true, Bool.not_eq_true'] at hnr
-    exact hnr s hs
-  obtain ⟨hon, hol⟩ := parseOpts_ok σ.opts om hws hom
-  -- ctor stage
-  unfold Schema.ctorStage at hcs
-  obtain ⟨_, hco, hcs⟩ := bind_eq_ok hcs
-  obtain ⟨_, hcc, hkw⟩ := bind_eq_ok hcs
-  have hcross := ctorCross_inv σ.cross hcc
+  obtain ⟨hon, hol⟩ := parseOpts_mem σ.opts om hom
   -- names
   have htn : tm.map (·.1) = (if σ.tail.isSome then tailFields else []) ∧
-      (σ.tail.isSome = true → ∃ t, σ.tail = some t ∧ ∃ a kw p ea ek es, tm = [(cs!"args", a), (cs!"kwargs", kw), (cs!"payload", p),
+      (∀ t, σ.tail = some t → ∃ a kw p ea ek es, tm = [(cs!"args", a), (cs!"kwargs", kw), (cs!"payload", p),
         (cs!"enc_algo", ea), (cs!"enc_key", ek), (cs!"enc_serializer", es)] ∧
-        argsShape t.variant a = true ∧ (p.isNull = true ∨ (a = .null ∧ kw = .null))) := by
+        argsShape t.variant a = true ∧ (p.isNull = true ∨ (a = .null ∧ kw = .null)) ∧
+        (p.isNull = true ∨ p.isBytes = true) ∧
+        (ea.isNull = true ∨ validEncAlgo O ea = true) ∧
+        (ek.isNull = true ∨ ek.isStr = true) ∧
+        (es.isNull = true ∨ validEncSer O es = true) ∧
+        ((ea.isNull = true ∧ ek.isNull = true ∧ es.isNull = true) ∨ (p.isNull = false ∧ ea.isNull = false))) := by
     unfold Schema.tailPart at htm
     split at htm
     · rename_i t ht
-      obtain ⟨a, kw, p, ea, ek, es, he, hs1, hs2⟩ := parseTail_ok htm
-      refine ⟨by simp [he, ht, tailFields], fun _ => ⟨t, ht, a, kw, p, ea, ek, es, he, hs1, hs2⟩⟩
+      obtain ⟨a, kw, p, ea, ek, es, he, hs⟩ := parseTail_ok htm
+      refine ⟨by simp [he, ht, tailFields], fun t' ht' => ?_⟩
+      rw [ht] at ht'
+      injection ht' with ht'
+      subst ht'
+      exact ⟨a, kw, p, ea, ek, es, he, hs⟩
     · rename_i ht
       simp only [pure, Except.pure, Except.ok.injEq] at htm
       subst htm
-      exact ⟨by simp [ht], by intro h; simp [ht] at h⟩
+      exact ⟨by simp [ht], by intro t h; simp [ht] at h⟩
   have hcn : (σ.customPart O w).map (·.1) = (if σ.custom then [cs!"custom"] else []) := by
     unfold Schema.customPart
     split <;> simp
@@ -463,33 +521,64 @@ theorem parse_strict_core (σ : Schema) (O : Oracles) (w : List WVal) (m : Msg)
     intro x hx; rw [← hps]; simp [hx]
   have hmem_cm : ∀ x ∈ σ.customPart O w, x ∈ m' := by
     intro x hx; rw [← hps]; simp [hx]
-  -- assemble `strict`
+  refine ⟨hnames, ?_, ?_, ?_, ?_⟩
+  · intro p hp f hf
+    obtain ⟨v, hv, hloc⟩ := hpl p hp f hf
+    rw [hget _ _ (hmem_pm _ hv)]
+    exact hloc
+  · intro s hs
+    obtain ⟨v, hv, hp⟩ := hol s hs
+    rw [hget _ _ (hmem_om _ hv)]
+    exact hp
+  · intro t ht
+    obtain ⟨a, kw, p, ea, ek, es, he, hs⟩ := htn.2 t ht
+    have ga : Msg.get m' cs!"args" = a := hget _ _ (hmem_tm _ (by simp [he]))
+    have gk : Msg.get m' cs!"kwargs" = kw := hget _ _ (hmem_tm _ (by simp [he]))
+    have gp : Msg.get m' cs!"payload" = p := hget _ _ (hmem_tm _ (by simp [he]))
+    have gea : Msg.get m' cs!"enc_algo" = ea := hget _ _ (hmem_tm _ (by simp [he]))
+    have gek : Msg.get m' cs!"enc_key" = ek := hget _ _ (hmem_tm _ (by simp [he]))
+    have ges : Msg.get m' cs!"enc_serializer" = es := hget _ _ (hmem_tm _ (by simp [he]))
+    unfold TailInv
+    rw [ga, gk, gp, gea, gek, ges]
+    exact hs
+  · intro hcu
+    have : (cs!"custom", WVal.dict ((σ.optsOf w).filter (fun kv => O.customAttr kv.1))) ∈ σ.customPart O w := by
+      simp [Schema.customPart, hcu]
+    exact hget _ _ (hmem_cm _ this)
+
+/-- **strictness** from the invariant of the field-by-field part plus `_validate_kwargs` -/
+theorem strict_of_inv {σ : Schema} {O : Oracles} {w : List WVal} {m' : Msg}
+    (hwf : σ.wf = true) (hnr : σ.noRoles = true) (inv : FieldsInv σ O w m')
+    (hkw : σ.tail.isSome = true → kwargsCheck m' = .ok ()) : σ.strict O m' = true := by
+  have hws : ∀ s ∈ σ.opts, OptStep.wf s = true ∧ s.ty.isRoles = false := by
+    intro s hs
+    refine ⟨(wf_parts hwf).2.2.2.2.2.2.2.1 s hs, ?_⟩
+    simp only [Schema.noRoles, List.all_eq_true, Bool.not_eq_true'] at hnr
+    exact hnr s hs
   simp only [Schema.strict, Bool.and_eq_true, List.all_eq_true, beq_iff_eq, Bool.or_eq_true, Bool.not_eq_true']
-  refine ⟨⟨⟨⟨hnames, ?_⟩, ?_⟩, ?_⟩, ?_⟩
+  refine ⟨⟨⟨⟨inv.names, ?_⟩, ?_⟩, ?_⟩, ?_⟩
   · -- positional
     intro p hp
     cases p with
     | id f =>
-      obtain ⟨v, hv, i, rfl, hi⟩ := hpl _ hp f rfl
-      simp only [PosStep.strict, hget _ _ (hmem_pm _ hv), hi]
+      obtain ⟨i, hi, hok⟩ := inv.pos _ hp f rfl
+      simp only [PosStep.strict, hi, hok]
     | uri f fl =>
-      obtain ⟨v, hv, hloc⟩ := hpl _ hp f rfl
-      simp only [PosStep.strict, hget _ _ (hmem_pm _ hv)]
-      exact hloc
+      simp only [PosStep.strict]
+      exact inv.pos _ hp f rfl
     | str f =>
-      obtain ⟨v, hv, hloc⟩ := hpl _ hp f rfl
-      simp only [PosStep.strict, hget _ _ (hmem_pm _ hv)]
-      exact hloc
+      simp only [PosStep.strict]
+      exact inv.pos _ hp f rfl
     | extra f =>
-      obtain ⟨v, hv, d, rfl⟩ := hpl _ hp f rfl
-      simp only [PosStep.strict, hget _ _ (hmem_pm _ hv)]
+      obtain ⟨d, hd⟩ := inv.pos _ hp f rfl
+      simp only [PosStep.strict, hd]
     | intEnum f allowed =>
-      obtain ⟨v, hv, i, rfl, hi⟩ := hpl _ hp f rfl
-      simp only [PosStep.strict, hget _ _ (hmem_pm _ hv), hi]
+      obtain ⟨i, hi, hok⟩ := inv.pos _ hp f rfl
+      simp only [PosStep.strict, hi, hok]
     | opts => rfl
     | uriByMatch f op key vals =>
-      obtain ⟨v, hv, hloc⟩ := hpl _ hp f rfl
-      simp only [PosStep.strict, hget _ _ (hmem_pm _ hv)]
+      have hloc := inv.pos _ hp f rfl
+      simp only [PosStep.strict]
       -- the `match` entry of the options
       have hpw := (wf_parts hwf).2.2.2.2.2.2.1 _ hp
       simp only [PosStep.wf, Bool.and_eq_true, beq_iff_eq, List.any_eq_true] at hpw
@@ -501,11 +590,10 @@ theorem parse_strict_core (σ : Schema) (O : Oracles) (w : List WVal) (m : Msg)
       obtain ⟨⟨⟨hvs, hdd⟩, hfl⟩, hdm⟩ := hty
       subst hvs hdd
       have hfl' : matchFlags d0 = {} := by simpa using hfl
-      obtain ⟨v0, hv0, hp0, _⟩ := hol s hs
+      have hp0 := inv.opts s hs
       have hoe : σ.optsOf w = (w.getD op .null).entries := by
         unfold Schema.optsOf; rw [hop]
-      rw [hf] at hv0
-      rw [hget _ _ (hmem_om _ hv0)]
+      rw [hf] at hp0
       unfold OptStep.parse at hp0
       rw [hoe, hk] at hp0
       simp only [PosStep.local] at hloc
@@ -519,7 +607,7 @@ theorem parse_strict_core (σ : Schema) (O : Oracles) (w : List WVal) (m : Msg)
           rw [hsty] at h2
           simpa using h2
         simp only [hreq] at hp0
-        have : v0 = s.dflt := by
+        have : Msg.get m' key = s.dflt := by
           cases hab : s.absentErrIf with
           | none =>
             rw [hab] at hp0
@@ -543,47 +631,33 @@ theorem parse_strict_core (σ : Schema) (O : Oracles) (w : List WVal) (m : Msg)
         | str sx =>
           simp only [OTy.check] at hp0
           split at hp0
-          · cases hp0
+          · simp only [Except.ok.injEq] at hp0
+            rw [← hp0]
             simp only [strOf]
             exact hloc.2
           · simp [fail] at hp0
         | _ => simp at hloc
   · -- typed entries
     intro s hs
-    obtain ⟨v, hv, _, hval⟩ := hol s hs
-    simp only [OptStep.strict, hget _ _ (hmem_om _ hv), Bool.or_eq_true]
+    have hval := OptStep.parse_ok (hws s hs).1 (hws s hs).2 (inv.opts s hs)
+    simp only [OptStep.strict, Bool.or_eq_true]
     exact hval
   · -- tail
     cases hts : σ.tail with
     | none => rfl
     | some t =>
       have htsome : σ.tail.isSome = true := by simp [hts]
-      obtain ⟨t', ht', a, kw, p, ea, ek, es, he, hs1, hs2⟩ := htn.2 htsome
-      rw [hts] at ht'
-      injection ht' with ht'
-      subst ht'
-      obtain ⟨c1, c2, c3⟩ := cross_mem hwc htsome
-      have h1 := hcross _ c1
-      have h2 := hcross _ c2
-      have h3 := hcross _ c3
-      simp only [htsome, if_true] at hkw
-      have ga : Msg.get m' cs!"args" = a := hget _ _ (hmem_tm _ (by simp [he]))
-      have gk : Msg.get m' cs!"kwargs" = kw := hget _ _ (hmem_tm _ (by simp [he]))
-      have gp : Msg.get m' cs!"payload" = p := hget _ _ (hmem_tm _ (by simp [he]))
-      simp only [Cross.ok, Bool.and_eq_true, Bool.or_eq_true, Bool.not_eq_true'] at h1 h2 h3
+      obtain ⟨f1, f2, f3, f4, f5, f6, f7⟩ := inv.tail t hts
+      have hkw' := hkw htsome
       simp only [tailStrict, Bool.and_eq_true, Bool.or_eq_true, Bool.not_eq_true']
-      refine ⟨⟨⟨⟨⟨⟨⟨h1, ?_⟩, ?_⟩, ?_⟩, h2.1.1⟩, h2.1.2⟩, h2.2⟩, ?_⟩
-      · rw [ga]
-        cases hv : t.variant <;> simp_all [argsShape]
-      · rw [gk]
-        unfold kwargsCheck at hkw
-        rw [gk] at hkw
-        cases kw <;> first | rfl | (simp [fail] at hkw)
-      · rw [gp, ga, gk]
-        rcases hs2 with h | ⟨rfl, rfl⟩
+      refine ⟨⟨⟨⟨⟨⟨⟨f3, ?_⟩, ?_⟩, ?_⟩, f4⟩, f5⟩, f6⟩, ?_⟩
+      · cases hv : t.variant <;> simp_all [argsShape]
+      · unfold kwargsCheck at hkw'
+        cases hk : Msg.get m' cs!"kwargs" <;> rw [hk] at hkw' <;> first | rfl | (simp [fail] at hkw')
+      · rcases f2 with h | ⟨ha, hk⟩
         · exact Or.inl h
-        · exact Or.inr ⟨rfl, rfl⟩
-      · rcases h3 with ⟨⟨x, y⟩, z⟩ | ⟨x, y⟩
+        · exact Or.inr ⟨by rw [ha]; rfl, by rw [hk]; rfl⟩
+      · rcases f7 with ⟨x, y, z⟩ | ⟨x, y⟩
         · exact Or.inl ⟨⟨x, y⟩, z⟩
         · exact Or.inr ⟨x, y⟩
   · -- custom attributes
@@ -591,9 +665,33 @@ theorem parse_strict_core (σ : Schema) (O : Oracles) (w : List WVal) (m : Msg)
     | false => exact Or.inl rfl
     | true =>
       right
-      have : (cs!"custom", WVal.dict ((σ.optsOf w).filter (fun kv => O.customAttr kv.1))) ∈ σ.customPart O w := by
-        simp [Schema.customPart, hcu]
-      rw [hget _ _ (hmem_cm _ this)]
+      rw [inv.custom hcu]
       simp [List.all_filter]
+
+theorem parseStage_fields {σ : Schema} {O : Oracles} {w : List WVal} {m : Msg} (h : σ.parseStage O w = .ok m) :
+    σ.parseFields O w = .ok m ∧ ctorCross .protocol O m σ.pcross = .ok () := by
+  unfold Schema.parseStage at h
+  obtain ⟨m', hf, h⟩ := bind_eq_ok h
+  obtain ⟨u, hc, h⟩ := bind_eq_ok h
+  simp only [pure, Except.pure, Except.ok.injEq] at h
+  subst h
+  exact ⟨hf, hc⟩
+
+/-- **strictness**: a message accepted by `parse` satisfies `Schema.strict` -/
+theorem parse_strict_core (σ : Schema) (O : Oracles) (w : List WVal) (m : Msg)
+    (hwf : σ.wf = true) (hnr : σ.noRoles = true)
+    (h : σ.parse O w = .ok m) : σ.strict O m = true := by
+  unfold Schema.parse at h
+  obtain ⟨m', hps, h⟩ := bind_eq_ok h
+  obtain ⟨u, hcs, h⟩ := bind_eq_ok h
+  simp only [pure, Except.pure, Except.ok.injEq] at h
+  subst h
+  have inv := parseFields_inv hwf (parseStage_fields hps).1
+  apply strict_of_inv hwf hnr inv
+  intro hts
+  unfold Schema.ctorStage at hcs
+  obtain ⟨_, _, hcs⟩ := bind_eq_ok hcs
+  obtain ⟨_, _, hkw⟩ := bind_eq_ok hcs
+  simpa [hts] using hkw
 
 end Abverif.Wamp
